@@ -4,6 +4,7 @@ use crate::gen::*;
 use crate::glue::*;
 use crate::prop::*;
 use crate::spec::*;
+use rl2tp::avp::AVP;
 use rl2tp::common::VecWriter;
 use serde_json::{json, Value};
 
@@ -29,7 +30,9 @@ fn parts(t: Tier) -> Vec<Part> {
         Tier::Quick => (360_000, 600_000, 180_000, 9_000, 180_000),
         Tier::Thorough => (3_000_000, 6_000_000, 2_000_000, 80_000, 2_000_000),
     };
-    vec![tape("messages", a, 2500), tape("avps", b, 1200), tape("oversize-avp", c, 300), tape("oversize-msg", d, 400), tape("hide-limits", e, 300), tape("after-refusal", c, 2500)]
+    // "gigantic": values of 2^32 + n and 2^31 + n octets offered to the encoder through a writer that keeps only the head of what it
+    // is given (a length kept in 32 bits wraps to something that looks legal); one case per shard
+    vec![tape("messages", a, 2500), tape("avps", b, 1200), tape("oversize-avp", c, 300), tape("oversize-msg", d, 400), tape("hide-limits", e, 300), tape("after-refusal", c, 2500), tape("gigantic", 16, 32)]
 }
 
 /// walk the AVP records of `body`; returns the extents or the reason the walk failed
@@ -445,7 +448,81 @@ fn check_after_refusal(t: &mut Tape, cx: &mut Cx) -> Res {
     }
 }
 
+fn mem_available_gib() -> u64 {
+    std::fs::read_to_string("/proc/meminfo")
+        .ok()
+        .and_then(|s| s.lines().find(|l| l.starts_with("MemAvailable:")).and_then(|l| l.split_whitespace().nth(1).and_then(|x| x.parse::<u64>().ok())))
+        .map(|kb| kb >> 20)
+        .unwrap_or(0)
+}
+
+/// an AVP (alone, or as the only large AVP of a control message) whose value has 2^32 + n or 2^31 + n octets: must be refused
+fn check_gigantic(t: &mut Tape, cx: &mut Cx) -> Res {
+    use crate::mon::SparseWriter;
+    // an encoder that stages the value in a buffer of its own needs that much real memory: only one tape in four runs the
+    // experiment, and only while plenty of memory is available
+    if t.below(4) != 0 || mem_available_gib() < 24 {
+        cx.class("gigantic: skipped (three tapes in four, or less than 24 GiB of memory available)");
+        return Ok(());
+    }
+    cx.eval();
+    let base: usize = if t.chance(60) { 1 << 32 } else { 1 << 31 };
+    // total AVP size modulo 2^32 (or 2^31): a legal-looking 6 .. 1023, exactly 0, or just over
+    let n = match t.below(4) {
+        0 => t.below(1018),
+        1 => 0,
+        2 => 1017 + t.below(8),
+        _ => t.below(70000),
+    };
+    let value_len = base + n - 6;
+    // zero pages straight from the allocator: nothing is touched unless the encoder copies it, and the writer below does not
+    let value = match guard(|| vec![0u8; value_len]) {
+        Caught::Ok(v) => v,
+        _ => return Ok(()), // the address space was refused: nothing learnt
+    };
+    let hidden = t.chance(50);
+    let in_message = t.chance(40);
+    let a = if hidden {
+        AVP::Hidden(rl2tp::avp::types::Hidden { attribute_type: t.b_u16(), value })
+    } else {
+        AVP::Challenge(rl2tp::avp::types::Challenge { value })
+    };
+    let render = || json!({"avp": if hidden { "Hidden" } else { "Challenge" }, "value_octets": value_len, "inside_a_control_message": in_message});
+    cx.stage(STAGE_UNATTRIBUTED); // running out of memory here is not the codec's fault
+    let r = guard(|| {
+        let mut w = SparseWriter::new(4096);
+        if in_message {
+            let m = rl2tp::Message::<Vec<u8>>::Control(rl2tp::ControlMessage { length: 0, tunnel_id: 1, session_id: 2, ns: 3, nr: 4, avps: vec![to_crate(&SAvp { attr: 0, hidden: false, body: Body::U16(1) }), a] });
+            m.write(&mut w);
+        } else {
+            a.write(&mut w);
+        }
+        (w.head, w.total)
+    });
+    cx.stage(STAGE_SETUP);
+    match r {
+        Caught::Panic(_) => {
+            cx.class("value of 2^31 / 2^32 + n octets refused (panic)");
+            cx.nontrivial(&(value_len, hidden, in_message, 31u8));
+            Ok(())
+        }
+        Caught::Monitor(_) => fail("unexpected panic payload", render()),
+        Caught::Ok((head, total)) => {
+            let at = if in_message { 12 + 8 } else { 0 };
+            let field = if head.len() >= at + 2 { (((head[at] >> 6) as usize) << 8) | head[at + 1] as usize } else { 0 };
+            let mut v = render();
+            v["octets_emitted"] = json!(total);
+            v["avp_length_field"] = json!(field);
+            v["head_of_output"] = json!(hex_short(&head[..head.len().min(40)]));
+            fail(format!("an AVP of {} octets was emitted instead of being refused (its length field says {})", value_len + 6, field), v)
+        }
+    }
+}
+
 fn run_tape(part: &str, tape: &[u8], cx: &mut Cx) -> Res {
+    if part == "gigantic" {
+        return check_gigantic(&mut Tape::new(tape), cx);
+    }
     let mut t = Tape::new(tape);
     match part {
         "after-refusal" => check_after_refusal(&mut t, cx),
